@@ -48,7 +48,7 @@ MUST_REACH = {"steps": 5000, "states": 300, "orphans_adopted": 20, "cascade_kill
               "local_id_changes": 10, "teardowns": 20, "futures_resolved": 20, "futures_cancelled": 20, "reparents": 20,
               "multi_orphan_lists": 10, "kills_of_unknown_with_orphans": 5, "steps_without_loop_iteration": 50, "requests_pending_when_object_left": 5, "object_manager_configs_covered": 3,
               "avatar_updates": 50, "multi_object_messages": 20, "viewer_cache_hits": 20, "viewer_cache_chains_loaded": 5,
-              "viewer_cache_hits_on_tracked_objects": 5}
+              "viewer_cache_hits_on_tracked_objects": 5, "requests_abandoned_while_others_wait": 20}
 
 HA = (1000 << 32) | 1000
 HB = (1001 << 32) | 1000
@@ -326,6 +326,8 @@ ACTIONS = [
     # "!": a locally originated action after which the event loop does not get to run before the next action
     ("DA!", "D", ("A",)), ("RA1!", "R", ("A", 1, "objects")),
     ("RA1", "R", ("A", 1, "objects")), ("RA5", "R", ("A", 5, "objects")), ("QA1", "R", ("A", 1, "properties")),
+    # one of several callers waiting for the same object gives up (its wait timed out): the others are still owed an answer
+    ("ZA1", "Z", ("A", 1)), ("ZA4", "Z", ("A", 4)),
     ("QA2", "R", ("A", 2, "properties")), ("RQA4", "R", ("A", 4, "both")),
 ]
 ACTION_BY_NAME = {a[0]: a for a in ACTIONS}
@@ -592,6 +594,17 @@ class World:
                 elif ent[0] == rn and ent[3].cancelled():
                     ctx.count("futures_cancelled")
             self.futures = [e for e in self.futures if e[0] != rn]
+        elif kind == "Z":
+            rn, local = args
+            mine = [e for e in self.futures if e[0] == rn and e[1] == local and not e[3].done()]
+            if not mine:
+                return False
+            self.path.append(name)
+            mine[0][3].cancel()
+            self.futures.remove(mine[0])
+            ctx.count("requests_abandoned_by_their_caller")
+            if len(mine) > 1:
+                ctx.count("requests_abandoned_while_others_wait")
         elif kind == "R":
             rn, local, what = args
             self.path.append(name)
